@@ -240,6 +240,16 @@ impl<F: Future> Stream for FuturesUnordered<F> {
             match poll {
                 Poll::Ready(Some(x)) => {
                     *rem -= 1;
+                    // Start the next poll at the following group: a group that yields on every
+                    // poll (e.g. one that is refilled as fast as it is drained) must not keep
+                    // the groups after it from ever being polled.
+                    if groups[*poll_next].is_empty() && *poll_next + 1 < groups.len() {
+                        // drained and not the last (largest) group, which is the only one we
+                        // keep around while empty: discard it now rather than at the next visit
+                        groups.remove(*poll_next);
+                    } else {
+                        *poll_next += 1;
+                    }
                     return Poll::Ready(Some(x));
                 }
                 Poll::Ready(None) => {
